@@ -24,8 +24,15 @@ class RingModel:
     # -- the open-ring table: an empty-dict local whose non-emptiness raises SyntaxError before the return
     def _find_table(self):
         fi, fl, cfg = self.fi, self.fl, self.cfg
-        empties = {d.var for d in fl.defs if d.kind == "assign" and not d.path and
-                   ((isinstance(d.value, ast.Dict) and not d.value.keys) or (isinstance(d.value, ast.Call) and ast.unparse(d.value) == "dict()"))}
+        def _empty_dict(d):
+            if (isinstance(d.value, ast.Dict) and not d.value.keys) or (isinstance(d.value, ast.Call) and ast.unparse(d.value) == "dict()"):
+                return True
+            try:
+                t = fl.canon(d.value, d.node)
+            except Exception:
+                return False
+            return t == ("dict", ()) or (t[0] == "call" and t[2] == ("builtin", "dict") and not t[3] and not t[4])
+        empties = {d.var for d in fl.defs if d.kind == "assign" and not d.path and d.value is not None and _empty_dict(d)}
         cands = []
         exits = [p for p, lab in cfg.pred[cfg.exit]]
         for g in cfg.nodes:
